@@ -151,3 +151,18 @@ def rel_query(m, qname, mode, max_s=None, max_p=6, cap_k=2, timeout=1500, model=
     q.replay_kind = "crypt"
     q.replay_prefix = m.prefix
     return q
+
+
+def bf_core_query(qname, max_p=2, timeout=1500):
+    """The real static BF_crypt called directly, Eksblowfish loops cut after one iteration
+    (harness/bf_crypt.c): setting validation, salt decoding, key schedule, output formatting."""
+    loops = [("^harness$|^bf64$", None, 70, False)]
+    for n in (0, 1, 3, 4, 6, 7, 8, 9):          # the loops that contain BF_ENCRYPT / BF_body / the cost loop
+        loops.append((r"^BF_crypt$", n, 1, True))
+    for n, k in ((2, 10), (5, 6)):
+        loops.append((r"^BF_crypt$", n, k, False))
+    loops += [(r"^BF_set_key$", None, 20, False), (r"^BF_decode$|^BF_encode$", None, 12, False), (r"^BF_swap$", None, 8, False)]
+    q = Query(qname, "bf_crypt.c", units=[("crypt-bcrypt.c", [], {"export_static": True})], models=["libc.c"],
+              defs=["MAX_P=%d" % max_p], unwind=6, loops=loops, timeout=timeout)
+    q.note = "loops of BF_crypt numbered 0,1,3,4,6,7,8,9 (Eksblowfish) are cut after one iteration"
+    return q
